@@ -37,6 +37,8 @@ type absHop struct {
 	Form    string   `json:"form"`
 	Addr    []int    `json:"addr"`
 	Host    []int    `json:"host"`
+	Port    string   `json:"port"`
+	Rel     string   `json:"rel"`
 	Answers [][]int  `json:"answers"`
 	St      string   `json:"st"`
 	Pred    [][]int  `json:"pred"`
@@ -59,6 +61,8 @@ type conHop struct {
 	Scheme  string   `json:"scheme"`
 	User    string   `json:"user"`
 	Form    string   `json:"form"`
+	Port    string   `json:"port"`
+	Rel     string   `json:"rel"`
 	Answers [][]int  `json:"answers"`
 	Classes []string `json:"classes"`
 	St      string   `json:"st"`
@@ -118,6 +122,9 @@ func hopURL(n int, hp absHop) (string, string) {
 		host = str(hp.Host)
 		hostport = host
 	}
+	if hp.Port != "" {
+		hostport += ":" + hp.Port
+	}
 	ui := map[string]string{"none": "", "user": "alice@", "userpass": "alice:s3cret@", "empty": "@"}[hp.User]
 	path := fmt.Sprintf("/hop%d.bin", n)
 	if hp.Scheme == "none" {
@@ -151,6 +158,9 @@ func checkURL(raw string, hp absHop, host string) {
 	if u.Hostname() != host {
 		h.Die("%q: hostname %q, model says %q", raw, u.Hostname(), host)
 	}
+	if u.Port() != hp.Port {
+		h.Die("%q: port %q, model says %q", raw, u.Port(), hp.Port)
+	}
 }
 
 func concrete(id int, ac absCase) conCase {
@@ -161,7 +171,7 @@ func concrete(id int, ac absCase) conCase {
 	for i, hp := range ac.Hops {
 		raw, host := hopURL(i+1, hp)
 		checkURL(raw, hp, host)
-		ch := conHop{URL: raw, Host: host, Scheme: hp.Scheme, User: hp.User, Form: hp.Form, Answers: hp.Answers,
+		ch := conHop{URL: raw, Host: host, Scheme: hp.Scheme, User: hp.User, Form: hp.Form, Port: hp.Port, Rel: hp.Rel, Answers: hp.Answers,
 			Classes: hp.Classes, St: hp.St, Pred: hp.Pred, May: hp.May}
 		if ch.Answers == nil {
 			ch.Answers = [][]int{}
